@@ -324,6 +324,70 @@ class ParallelBudgetCase(Case):
         return {}
 
 
+class StepReuseCase(Case):
+    """The same optimizer step run twice with the same validated configuration object: each run has the whole
+    function budget, and ends with the code its own evaluations give."""
+
+    family = "exit-code/optimizer-step/reused"
+
+    def __init__(self, cid, nevals=2, maxf=3):
+        self.id, self.nevals, self.maxf = cid, nevals, maxf
+        self.cfg0 = ens.ensemble_config(N=2, R=2, P=1, x0=[0.25, -0.5], lower=-10.0, upper=10.0,
+                                        extra={"optimizer": {"method": "symstub/x", "max_functions": maxf}})
+
+    def describe(self):
+        return f"one step, two runs, {self.nevals} function requests each, max_functions={self.maxf}"
+
+    def inputs(self, env):
+        return {"flags": {(e, r, -1): env.flag(f"nan_{e}_{r}") for e in range(2 * self.nevals) for r in range(2)}}
+
+    def run(self, env, inp):
+        cfg = clone_config(self.cfg0)
+        rec = Recorder()
+        ev = FlagEvaluator(env, inp["flags"])
+        plan, _ = make_plan(ev, rec)
+        pts = [np.array([0.25, -0.5]), np.array([0.5, 0.75]), np.array([-0.25, 0.0])]
+        served = []
+
+        def script(opt, x0):
+            for e in range(self.nevals):
+                opt.callback(env.const(pts[e]), return_functions=True, return_gradients=False)
+                served[-1] += 1
+
+        ens.set_script(script)
+        step = plan.add_step("optimizer")
+        codes = []
+        for _ in range(2):
+            served.append(0)
+            codes.append(plan.run_step(step, config=cfg))
+        return {"codes": codes, "served": served, "calls": len(ev.calls)}
+
+    def props(self, env, inp, oc):
+        from ropt.enums import OptimizerExitCode as X
+        if not oc.ok:
+            return [("no_internal_exception:" + type(oc.exc).__name__, SB(False))]
+        o, fl = oc.value, inp["flags"]
+        props = []
+        call = 0
+        for run in range(2):
+            # expected: evaluations are served until one has too few successes (both realizations fail: rmin = 1)
+            alive, exp = SB(True), []
+            for e in range(self.nevals):
+                if call + e >= 2 * self.nevals:
+                    break
+                bad = And(fl[(call + e, 0, -1)], fl[(call + e, 1, -1)])
+                exp.append((And(alive, bad), X.TOO_FEW_REALIZATIONS, e))
+                alive = And(alive, Not(bad))
+            exp.append((alive, X.OPTIMIZER_STEP_FINISHED, self.nevals))
+            code, served = o["codes"][run], o["served"][run]
+            props.append((f"run{run}.exit_code_and_stop_point_as_specified", Or(*[c for c, k, d in exp if k == code and d == served])))
+            call += served + (1 if code == X.TOO_FEW_REALIZATIONS else 0)
+        return props
+
+    def observe(self, env, inp, oc):
+        return {}
+
+
 def build_cases(tier):
     cases = []
     k = 0
@@ -376,6 +440,7 @@ def build_cases(tier):
     add(EvaluatorStepCase, rmin=2, C=2, nan_col=2)
     add(EvaluatorStepCase, rmin=0, C=2, R=3, nan_col=1)
     add(ParallelBudgetCase)
+    add(StepReuseCase)
     add(ParallelBudgetCase, batches=(3, 1, 3))
     if tier == "thorough":
         for rmin in (0, 1, 2, 3):
